@@ -45,7 +45,7 @@ def spec_agg(agg, rows, src):
     if agg == 'set':
         return ('set', sorted(set(vals), key=repr))
     if agg == 'counters':
-        return [list(t) for t in collections.Counter(vals).most_common()]
+        return sorted([list(t) for t in collections.Counter(vals).most_common()], key=lambda t: (-t[1], repr(t[0])))
     if not vals:
         return None
     if agg == 'sum':
@@ -73,7 +73,8 @@ def norm_cell(v, agg=None):
     if agg == 'set' and isinstance(v, list):
         return ('set', sorted(set(v), key=repr))
     if agg == 'counters' and isinstance(v, list):
-        return [list(t) for t in v]
+        # ties of most_common() have no specified order (the state passes through the key/value file)
+        return sorted([list(t) for t in v], key=lambda t: (-t[1], repr(t[0])))
     return v
 
 
